@@ -476,6 +476,18 @@ theorem disjoint_of_rangeUnique {l : List Tbl} (hs : ∀ t ∈ l, SortedRun t.ru
   rw [← hk] at h2
   exact hab ea.key ⟨h1, h2⟩
 
+/-- the structural shape all three branches of the compactor produce and the executable test `Lsm.safeCS` asks for -/
+structure StructOK (L : Levels) (rm : List Nat) (lvl : Nat) (add : List Run) : Prop where
+  lvl_pos : 1 ≤ lvl
+  lvl_lt : lvl < L.length
+  target : ∀ t ∈ L.getD lvl [], rmP rm t = true
+  below : ∀ i, lvl < i → ∀ t ∈ L.getD i [], rmP rm t = false
+  l0 : (L.headD []).Pairwise (fun older newer =>
+      rmP rm newer = true → rmP rm older = false → DisjointKeys newer.run older.run)
+  closed : ∀ i j, i < j → j < lvl → (∃ t ∈ L.getD i [], rmP rm t = true) → ∀ t ∈ L.getD j [], rmP rm t = true
+  added : add.flatten = mergeAll (((readOrder L).filter (rmP rm)).map (·.run))
+  chunks : (∀ r ∈ add, r ≠ []) ∨ add = [[]]
+
 theorem safe_of_structure {L : Levels} {rm : List Nat} {lvl : Nat} {add : List Run} (hv : WeakValid L)
     (h1 : 1 ≤ lvl) (h2 : lvl < L.length)
     (htarget : ∀ t ∈ L.getD lvl [], rmP rm t = true)
@@ -524,5 +536,9 @@ theorem safe_of_structure {L : Levels} {rm : List Nat} {lvl : Nat} {add : List R
       have : (l0 :: (D1 ++ Lv :: D2)).getD 0 [] = l0 := rfl
       rw [this] at h1'
       rw [h1' ⟨x, List.mem_reverse.mp hx, hpx⟩ y hyl] at hpy; cases hpy
+
+theorem safe_of_structOK {L : Levels} {rm : List Nat} {lvl : Nat} {add : List Run} (hv : WeakValid L)
+    (h : StructOK L rm lvl add) : SafeCS L rm lvl add :=
+  safe_of_structure hv h.lvl_pos h.lvl_lt h.target h.below h.l0 h.closed h.added h.chunks
 
 end Rxn.Compaction
